@@ -37,7 +37,11 @@ func DateRanges(src search.DateValuesSource) *DateRangeAggregation {
 }
 
 func (a *DateRangeAggregation) Fields() []string {
-	return a.src.Fields()
+	rv := a.src.Fields()
+	for _, agg := range a.aggregations {
+		rv = append(rv, agg.Fields()...)
+	}
+	return rv
 }
 
 func (a *DateRangeAggregation) AddRange(rang *DateRange) *DateRangeAggregation {
